@@ -332,8 +332,15 @@ class Ctx:
                 return "sat", self._generic_model(s2)
         return r, self._generic_model(s)
 
+    generic_models = True  # class-level switch; harnesses whose replays pick their own numbers turn it off
+
+    def _generic_model(self, s, max_vars=80):
+        if not Ctx.generic_models:
+            return s.model()
+        return self._generic_model_impl(s, max_vars)
+
     @staticmethod
-    def _generic_model(s, max_vars=80):
+    def _generic_model_impl(s, max_vars=80):
         """Counterexamples with generic numbers: pin as many variables as possible to pseudo-random
         values (z3 likes zeros, which make matrices singular and replays meaningless)."""
         m = s.model()
@@ -731,3 +738,27 @@ def fast_valid(goal, implied=None):
         except z3.Z3Exception:
             return False
     return False
+
+
+def by_combination(goal, hyps, multipliers):
+    """Certificate check: goal (an equality a == b) follows from one hypothesis equality e_l == e_r by
+    a - b == m * (e_l - e_r) for a hinted multiplier m (identity decided by the simplifier normal form).
+    Sound: the identity is polynomial, the hypothesis is assumed; returns the (hyp index, multiplier) or None."""
+    if not (z3.is_app(goal) and goal.decl().kind() == z3.Z3_OP_EQ):
+        return None
+    a, b = goal.children()
+    (an, ad), (bn, bd) = ratnorm(a), ratnorm(b)
+    diff = an * bd - bn * ad
+    den = ad * bd
+    for i, h in enumerate(hyps):
+        if not (z3.is_app(h) and h.decl().kind() == z3.Z3_OP_EQ):
+            continue
+        hl, hr = h.children()
+        (hn, hd), (gn, gd) = ratnorm(hl), ratnorm(hr)
+        e = hn * gd - gn * hd  # hypothesis: e == 0 (denominators non-zero)
+        for m in multipliers:
+            # diff/den == m * e/(hd*gd)  <=>  diff * hd * gd - m * e * den == 0
+            d = z3.simplify(diff * hd * gd - m * e * den, som=True)
+            if z3.is_rational_value(d) and d.numerator_as_long() == 0:
+                return i, m
+    return None
